@@ -54,7 +54,8 @@ UNARY = [
     Op("dropna_c", lambda d: d.dropna(subset=["c"]), family="rowselect"),
     Op("reset_index", lambda d: d.reset_index(drop=True), family="index", noindex=True),
     Op("reset_index_keep", lambda d: d.reset_index(), family="index", noindex=True),
-    Op("set_index_a", lambda d: d.set_index("a"), family="sort"),
+    # dask's set_index sorts by the new index (documented difference from pandas): order unspecified vs pandas
+    Op("set_index_a", lambda d: d.set_index("a"), family="sort", unordered=True),
     Op("sort_b", lambda d: d.sort_values(["b", "a"]), family="sort"),
     Op("sort_a_desc", lambda d: d.sort_values("a", ascending=False), family="sort"),
     Op("cumsum", lambda d: d[["a", "b"]].cumsum(), family="cumulative"),
@@ -68,7 +69,9 @@ UNARY = [
     Op("mappart", lambda d: d.map_partitions(lambda x: x.assign(m=x.a * 3)) if _dd(d) else d.assign(m=d.a * 3), family="map_partitions"),
     Op("clip", lambda d: d.clip(lower=1, upper=5), family="elemwise"),
     Op("abs", lambda d: d.abs(), family="elemwise"),
-    Op("head3", lambda d: d.head(3, compute=False) if _dd(d) else d.head(3), family="head"),
+    # npartitions=-1: dask's head(n) looks at the first partition only (documented); with all
+    # partitions it is pandas' head
+    Op("head3", lambda d: d.head(3, npartitions=-1, compute=False) if _dd(d) else d.head(3), family="head"),
     Op("tail2", lambda d: d.tail(2, compute=False) if _dd(d) else d.tail(2), family="head"),
 ]
 
@@ -136,6 +139,63 @@ class Program:
     noindex: bool = False
 
 
+_ROWCOUNT_PRESERVING = {"projection", "assign", "elemwise", "rename", "astype", "cumulative", "map_partitions", "overlap"}
+
+
+def _tail_ok(chain):
+    """dask's tail(n) takes the last n rows of the *last partition* (documented); it coincides with
+    pandas' tail only while every partition still has its original rows."""
+    for i, op in enumerate(chain):
+        if op.name == "tail2" and any(o.family not in _ROWCOUNT_PRESERVING for o in chain[:i]):
+            return False
+    return True
+
+
+_ORDER_SENSITIVE = {"cumulative", "overlap", "head"}
+_TIE_MAKERS = {"clip", "diff1", "shift1", "fillna0", "abs", "assign_a", "astype_f", "cumsum", "add1", "mappart", "assign_z"}
+
+
+def _order_ok(chain, term):
+    """Exclude programs whose pandas meaning depends on something dask-expr leaves unspecified:
+    an order-sensitive operator after an operator with unspecified row order, or an operator that
+    turns index labels into data after an operator with unspecified index labels."""
+    unordered = noindex = ties = False
+    for op in list(chain) + [term]:
+        if ties and op.family == "sort":
+            unordered = True  # order among equal sort keys is unspecified
+        if op.name in _TIE_MAKERS:
+            ties = True
+        if unordered and (op.family in _ORDER_SENSITIVE or op.name in ("reset_index_keep",)):
+            return False
+        if noindex and (op.family in ("index", "sort") and op.name not in ("reset_index", "sort_b", "sort_a_desc")):
+            return False
+        if noindex and op.family == "overlap":
+            return False  # shift/diff align on index labels
+        unordered = unordered or op.unordered
+        noindex = noindex or op.noindex
+    return True
+
+
+def _excluded(chain, term):
+    """Programs kept out of the vetted space, each with its reason."""
+    names = [o.name for o in chain]
+    # known finding D26 (open, nondeterministic): projection push-down duplicates a shared disk shuffle;
+    # the two copies may order rows differently inside a partition and `Index[mask]` is positional.
+    if term.name == "index" and "shuffle_b_disk" in names and any(o.family == "filter" for o in chain):
+        return True
+    return False
+
+
+def _has_tie_sort(chain):
+    ties = False
+    for op in chain:
+        if ties and op.family == "sort":
+            return True
+        if op.name in _TIE_MAKERS:
+            ties = True
+    return False
+
+
 def enumerate_programs(max_depth=2):
     """Fixed-order enumeration of the vetted program space."""
     progs = []
@@ -150,8 +210,10 @@ def enumerate_programs(max_depth=2):
                     x = op.fn(x)
                 return term.fn(x)
 
+            if not _tail_ok(chain) or not _order_ok(chain, term) or _excluded(chain, term):
+                continue
             name = "/".join([o.name for o in chain] + [term.name])
-            unordered = any(o.unordered for o in chain) or term.unordered
+            unordered = any(o.unordered for o in chain) or term.unordered or _has_tie_sort(chain)
             noindex = any(o.noindex for o in chain) or term.noindex
             if noindex and term.name == "index":
                 continue  # asking for index labels that dask-expr leaves unspecified
